@@ -220,11 +220,11 @@ fn adversarial() -> Vec<(&'static str, Vec<u8>)> {
     let mut e = Enc::header();
     e.u32(0).u32(0).u32(0).u32(0).u32(1);
     e.str(b"TR").str(b"T").u8(0).u8(0).u8(0).u8(1);
-    for _ in 0..20000 {
+    for _ in 0..5000 {
         e.u8(0x03).u8(0);
     }
     e.u8(0x07).u8(0).str(b"x");
-    v.push(("adv-expr-depth-20000", e.0.clone()));
+    v.push(("adv-expr-depth-5000", e.0.clone()));
     v
 }
 
@@ -322,7 +322,7 @@ fn gen_cases(seed: u64, thorough: bool, bases: &[Base]) -> Vec<Case> {
             }
         }
         // random blocks: overwrite / insert / delete
-        for _ in 0..(if thorough { 1500 } else { 150 }) {
+        for _ in 0..(if thorough { 5000 } else { 150 }) {
             let o = r.below(len as u64 + 1) as usize;
             let n = 1 + r.below(8) as usize;
             let ins: Vec<u8> = (0..n).map(|_| r.next() as u8).collect();
@@ -341,7 +341,7 @@ fn gen_cases(seed: u64, thorough: bool, bases: &[Base]) -> Vec<Case> {
     // arbitrary byte strings (patch of base 0 replacing everything), some behind a valid header
     let mut r = Rng::new(seed, "c20/arbitrary");
     let b0 = bases.iter().position(|b| b.fm == Fm::Bin).unwrap_or(0);
-    for i in 0..(if thorough { 3000 } else { 500 }) {
+    for i in 0..(if thorough { 20000 } else { 500 }) {
         let n = r.below(120) as usize;
         let mut ins: Vec<u8> = if i % 2 == 0 { Enc::header().0 } else { vec![] };
         for _ in 0..n {
@@ -420,6 +420,11 @@ fn worker(args: &Args) {
             libc::setrlimit(libc::RLIMIT_AS, &r);
         }
     }
+    unsafe {
+        // no core files: an aborting child must die quickly
+        let r = libc::rlimit { rlim_cur: 0, rlim_max: 0 };
+        libc::setrlimit(libc::RLIMIT_CORE, &r);
+    }
     std::panic::set_hook(Box::new(|info| {
         let loc = info.location().map(|l| format!("{}:{}", l.file(), l.line())).unwrap_or_default();
         let msg = info.payload().downcast_ref::<String>().cloned().or_else(|| info.payload().downcast_ref::<&str>().map(|s| s.to_string())).unwrap_or_default();
@@ -461,6 +466,9 @@ fn worker(args: &Args) {
         }
         i += 1;
     }
+    let mut o = out.lock();
+    writeln!(o, "E").unwrap();
+    o.flush().unwrap();
 }
 
 // ---------------------------------------------------------------------------------------------
@@ -478,7 +486,11 @@ fn spawn_worker(exe: &Path, args: &Args, extra: &[(&str, String)]) -> std::proce
 
 /// drive one child until it exits, is killed for silence, or finishes; returns observations and the
 /// index to resume from (None when the worker's share is done)
-fn drive(mut child: std::process::Child, results: &Mutex<BTreeMap<usize, Obs>>) -> Option<usize> {
+fn drive(child: std::process::Child, results: &Mutex<BTreeMap<usize, Obs>>) -> Option<usize> {
+    drive_with(child, results, TIME_LIMIT)
+}
+
+fn drive_with(mut child: std::process::Child, results: &Mutex<BTreeMap<usize, Obs>>, limit: Duration) -> Option<usize> {
     let stdout = child.stdout.take().unwrap();
     let (tx, rx) = mpsc::channel::<String>();
     let reader = std::thread::spawn(move || {
@@ -489,9 +501,11 @@ fn drive(mut child: std::process::Child, results: &Mutex<BTreeMap<usize, Obs>>) 
         }
     });
     let mut in_flight: Option<usize> = None;
+    let mut last_done: Option<usize> = None;
+    let mut finished = false;
     let mut timed_out = false;
     loop {
-        match rx.recv_timeout(TIME_LIMIT) {
+        match rx.recv_timeout(limit) {
             Ok(l) => {
                 let mut it = l.splitn(7, ' ');
                 match it.next() {
@@ -505,7 +519,9 @@ fn drive(mut child: std::process::Child, results: &Mutex<BTreeMap<usize, Obs>>) 
                         let msg = it.next().unwrap_or("").to_string();
                         results.lock().unwrap().insert(i, Obs { code, max_alloc, max_bytes, sig, msg });
                         in_flight = None;
+                        last_done = Some(i);
                     }
+                    Some("E") => finished = true,
                     _ => {}
                 }
             }
@@ -537,8 +553,11 @@ fn drive(mut child: std::process::Child, results: &Mutex<BTreeMap<usize, Obs>>) 
         let msg = if timed_out { "no answer within 5 s".to_string() } else { format!("{:?} {}", status, esc(err.trim())) };
         results.lock().unwrap().insert(i, Obs { code, max_alloc: -1, max_bytes: -1, sig: -1, msg });
         Some(i + 1)
-    } else {
+    } else if finished {
         None
+    } else {
+        // the child went away between two cases (or before its first): continue after the last answer
+        Some(last_done.map(|i| i + 1).unwrap_or(usize::MAX))
     }
 }
 
@@ -725,10 +744,20 @@ fn main() {
                 let (exe, args, results) = (&exe, &args, &results);
                 s.spawn(move || {
                     let mut from = 0usize;
+                    let mut stalls = 0;
                     loop {
                         let ch = spawn_worker(exe, args, &[("worker", w.to_string()), ("nworkers", nw.to_string()), ("from", from.to_string())]);
                         match drive(ch, results) {
-                            Some(next) => from = next,
+                            Some(usize::MAX) => {
+                                stalls += 1; // died before answering anything: retry the same position a few times
+                                if stalls > 3 {
+                                    break;
+                                }
+                            }
+                            Some(next) => {
+                                stalls = 0;
+                                from = next;
+                            }
                             None => break,
                         }
                     }
@@ -748,15 +777,16 @@ fn main() {
                 let (exe, args, again) = (&exe, &args, &again);
                 s.spawn(move || {
                     for &i in chunk {
+                        // alone and with a generous limit: only a case that is still silent after 20 s keeps "timeout"
                         let ch = spawn_worker(exe, args, &[("worker", "0".into()), ("nworkers", "1".into()), ("single", i.to_string())]);
-                        drive(ch, again);
+                        drive_with(ch, again, Duration::from_secs(20));
                     }
                 });
             }
         });
         for (i, o2) in again.into_inner().unwrap() {
-            if o2.code < 3 {
-                sum.count("abnormal_outcome_not_reproduced");
+            if o2.code != results[&i].code {
+                sum.count("abnormal_outcome_revised_on_rerun");
                 results.insert(i, o2);
             }
         }
@@ -866,9 +896,9 @@ fn main() {
                 let o = &results[&i];
                 let al = if o.max_bytes < 0 { "(-1)".to_string() } else { o.max_bytes.to_string() };
                 if let Some(img) = zst_images.get(&i) {
-                    lines.push(format!("mkCase {} {} 0 0 {} {} {}", i, bin_bases.len(), bytes_lit(img), o.code, al));
+                    lines.push(format!("mkCase {} {} 0 0 {} {} {} {}", i, bin_bases.len(), bytes_lit(img), o.code, al, if o.sig < 0 { "(-1)".to_string() } else { o.sig.to_string() }));
                 } else {
-                    lines.push(format!("mkCase {} {} {} {} {} {} {}", i, pos[&c.base], c.off, c.del, bytes_lit(&c.ins), o.code, al));
+                    lines.push(format!("mkCase {} {} {} {} {} {} {} {}", i, pos[&c.base], c.off, c.del, bytes_lit(&c.ins), o.code, al, if o.sig < 0 { "(-1)".to_string() } else { o.sig.to_string() }));
                 }
             }
             s.push_str(&lines.join(";\n"));
